@@ -281,8 +281,10 @@ def unit(root='/repo'):
         rec = 'r->Ok_0.lower_exists.v' if has_lf else 'exists|i: int| 0 <= i < r->Ok_0.ris().len() && !(#[trigger] r->Ok_0.ris()[i]).in_upper_layer'
         newn.ensures.append('r is Ok && lower_shows(real_inodes@) ==> %s // [C11.union.lower_record] a node (visible or a whiteout) whose name the lower layers alone show has that on record: do_rm needs it to leave a whiteout, do_mkdir to make the new directory opaque' % rec)
     if has_lf:
-        newn.splices.append(('let lower_exists = Self::lower_shows(&real_inodes);', 'after', 'let ghost lsh = lower_exists;'))
-        newn.body_hooks[0] = R.r28_for_owned(r'\bfor\s+(ri)\s+in\s+(real_inodes)\s*\{', 'vec_into_iter', 'ri_it', header_extra=NEWN_INV.replace('all.len() > 0,', 'all.len() > 0, lower_exists == lower_shows(all),'))
+        # `lower_exists` is an immutable local computed before the loop: with loop isolation off its defining fact survives the loop, so neither a ghost copy nor
+        # an invariant has to NAME the local (a version that computes the record elsewhere - seed C11-f: after the loop, from what the node KEPT - is then
+        # still extracted and fails [C11.union.lower_record] instead of losing an anchor)
+        newn.attrs = list(getattr(newn, 'attrs', None) or []) + ['#[verifier::loop_isolation(false)]', '#[verifier::allow_complex_invariants]']
         fns.insert(0, Fn(OVL, OI, 'lower_shows', props=['C11'], ensures=['r == lower_shows(real_inodes@) // [C11.lower_shows] the lower layers alone show the name iff the first entry outside the upper layer is not a whiteout'],
                          splices=[('for ri in real_inodes.iter() {', 'replace', 'for ri in it: real_inodes.iter()\n            invariant forall|j: int| 0 <= j < it.index@ ==> (#[trigger] real_inodes@[j]).in_upper_layer, it.seq().len() == real_inodes@.len(), forall|j: int| 0 <= j < real_inodes@.len() ==> *it.seq()[j] == real_inodes@[j],\n        {')]))
         fns[2].ensures = fns[2].ensures + ['r.lower_exists.v == (!real_inode.in_upper_layer && !real_inode.whiteout) // [C11.new_from_real_inode.lower_record]']
